@@ -142,6 +142,10 @@ class ErrDomain:
                 return "v:" + rd.get("id", rd.get("name"))
         if e.get("kind") == "MemberExpr":
             return "m:" + expr_str(e)
+        if e.get("kind") == "UnaryOperator" and e.get("opcode") == "*":
+            b = strip(kids(e)[0], casts=True)
+            if b.get("kind") == "DeclRefExpr" and b.get("referencedDecl", {}).get("kind") == "ParmVarDecl":
+                return "d:" + b["referencedDecl"].get("id", "")
         return None
 
     def _flag_of(self, e, s):
@@ -170,6 +174,8 @@ class ErrDomain:
 
     def _call_kind(self, e):
         e = strip(e, casts=True)
+        if e.get("kind") == "CallExpr" and str(self.kinds.get(callee_name(e) or "", "")).startswith("outmf:"):
+            return None         # the result is a quantity; failure travels through the out-parameter
         if e.get("kind") == "ConditionalOperator":
             a, b = self._call_kind(kids(e)[1]), self._call_kind(kids(e)[2])
             if a and b and a[1] == b[1]:
@@ -289,6 +295,19 @@ class ErrDomain:
             if s is not None and callee_name(e0) in self.noreturn:
                 self.exits.append((e0, dict(s)))
                 return None
+            okind = self.kinds.get(callee_name(e0) or "", "")
+            if isinstance(okind, str) and okind.startswith("outmf:") and s is not None:
+                # the callee reports failure by storing MAP_FAILED through this pointer argument
+                idx = int(okind.split(":")[1])
+                args = call_args(e0)
+                if idx < len(args):
+                    a0 = strip(args[idx], casts=True)
+                    if a0.get("kind") == "UnaryOperator" and a0.get("opcode") == "&":
+                        k_ = self.key_of(kids(a0)[0])
+                        if k_:
+                            s[k_] = U("mapfailed", callee_name(e0), e0)
+                            self.sites.append(e0)
+                return s
             if ck:
                 self.sites.append(ck[2])
                 if consumer is None:
@@ -555,6 +574,20 @@ def internal_summaries(prog):
             out[name] = "mapfailed"
         elif "null" in vals and nonconst and name != "asm_create_instance":
             out[name] = "null"
+    # failure reported through an out-parameter: `*p = MAP_FAILED` somewhere in a function with a pointer-to-pointer parameter
+    for name, f in prog.lib_functions().items():
+        if name in out:
+            continue
+        ps = prog.params(f)
+        for i, p in enumerate(ps):
+            if qtype(p).count("*") < 2:
+                continue
+            for m in walk(prog.body(f)):
+                if m.get("kind") == "BinaryOperator" and m.get("opcode") == "=":
+                    l = strip(kids(m)[0], casts=True)
+                    if l.get("kind") == "UnaryOperator" and l.get("opcode") == "*" and ref_name(strip(kids(l)[0], casts=True)) == p["name"] \
+                            and is_map_failed(prog, kids(m)[1]):
+                        out[name] = "outmf:%d" % i
     return out
 
 
@@ -570,12 +603,24 @@ def analyse_function(prog, fname, kinds, report, noreturn=()):
     return dom
 
 
+def out_param_state(prog, dom, s):
+    """for a function that reports failure through `*p = MAP_FAILED`: the tracked state of *p in s (FAILED / ok / mixed / None)"""
+    mk = dom.kinds.get(dom.fname, "")
+    if not (isinstance(mk, str) and mk.startswith("outmf:")):
+        return "n/a"
+    p = prog.params(prog.fn(dom.fname))[int(mk.split(":")[1])]
+    return s.get("d:" + p["id"])
+
+
 def return_is_failure(prog, dom, n):
     """is the value returned by ReturnStmt n a failure value for its function?"""
     ks = kids(n)
     if n.get("kind") != "ReturnStmt" or not ks:
         return None
     e = ks[0]
+    mk = dom.kinds.get(dom.fname, "") if hasattr(dom, "kinds") else ""
+    if isinstance(mk, str) and mk.startswith("outmf:"):
+        return None         # decided by the state of the out-parameter at this return (see out_param_failed)
     if is_map_failed(prog, e):
         return True
     v = ConstEval(prog).try_eval(strip(e, casts=True))
@@ -959,7 +1004,11 @@ def pair_rule(chk, prog, fnames, rule="PAIR", units_prefix="src/"):
         for m in walk(prog.body(f)):
             if m.get("kind") == "BinaryOperator" and m.get("opcode") == "=":
                 l = strip(kids(m)[0])
-                if l.get("kind") == "MemberExpr":
+                handed = l.get("kind") == "MemberExpr"
+                if l.get("kind") == "UnaryOperator" and l.get("opcode") == "*":
+                    b = strip(kids(l)[0], casts=True)
+                    handed = b.get("kind") == "DeclRefExpr" and b.get("referencedDecl", {}).get("kind") == "ParmVarDecl"
+                if handed:          # stored into the instance, or handed to the caller through an out-parameter
                     rk = dom.key_of(kids(m)[1])
                     if rk:
                         escapes.add(rk)
@@ -967,8 +1016,8 @@ def pair_rule(chk, prog, fnames, rule="PAIR", units_prefix="src/"):
         for r, s in dom.rets:
             rk = dom.key_of(kids(r)[0]) if kids(r) else None
             for k, (cal, node, st) in s.items():
-                if k == rk or k in escapes or k.startswith("m:"):
-                    continue
+                if k == rk or k in escapes or k.startswith("m:") or k.startswith("d:"):
+                    continue        # returned, stored into the instance, or handed to the caller through an out-parameter
                 if st in ("open",) or (st == "maybe" and False):
                     leaks.setdefault((cal, loc_str(node)), []).append(loc_str(r))
         for cal in acq_here:
